@@ -715,7 +715,12 @@ func (r *reporter) convertTags(tags map[string]string) []m3thrift.MetricTag {
 		})
 	}
 	if !collision {
-		mtags = r.tagCache.Set(key, mtags)
+		// n.b. Set hands back what another goroutine stored under this key in
+		//      the meantime, which may be a different tag set with the same
+		//      hash: it is used only if it is the requested tag set.
+		if cached := r.tagCache.Set(key, mtags); tagsMatch(cached, tags) {
+			mtags = cached
+		}
 	}
 
 	return mtags
